@@ -49,10 +49,13 @@ func Cfgs() []Cfg {
 		mkCfg("pointer", "", "none", false, nil),
 		mkCfg("unk-bool", "bexpr", "none", true, true),
 		mkCfg("unk-f64", "bexpr", "none", true, 2.5),
+		mkCfg("nildef", "bexpr", "nildef", false, nil),
+		mkCfg("label", "bexpr", "label", false, nil),
 	}
 }
 
 var wrapperType = reflect.TypeOf(zoo.Wrapper{})
+var nstringType = reflect.TypeOf(zoo.NString(""))
 
 // HookFn returns the value transformation hook of the given name.
 func HookFn(name string) bexpr.ValueTransformationHookFn {
@@ -75,6 +78,30 @@ func HookFn(name string) bexpr.ValueTransformationHookFn {
 		}
 	case "nilret":
 		return func(v reflect.Value) reflect.Value { return reflect.ValueOf(nil) }
+	case "label":
+		// renders scalars of one named type as text (an enum shown by its label)
+		return func(v reflect.Value) reflect.Value {
+			d := v
+			for d.IsValid() && d.Kind() == reflect.Interface && !d.IsNil() {
+				d = d.Elem()
+			}
+			if d.IsValid() && d.Type() == nstringType {
+				return reflect.ValueOf("n:" + d.String())
+			}
+			return v
+		}
+	case "nildef":
+		// supplies a default for nil pointers and nil interfaces (a hook whose whole job is to replace such values)
+		return func(v reflect.Value) reflect.Value {
+			d := v
+			for d.IsValid() && d.Kind() == reflect.Interface && !d.IsNil() {
+				d = d.Elem()
+			}
+			if d.IsValid() && (d.Kind() == reflect.Interface || d.Kind() == reflect.Ptr) && d.IsNil() {
+				return reflect.ValueOf("dflt")
+			}
+			return v
+		}
 	}
 	return nil
 }
